@@ -1,2 +1,1342 @@
-pub fn run(_ctx: &vcommon::Ctx) -> ! { todo!() }
-pub fn child_main(_s: &str) -> ! { todo!() }
+//! C25: running any instruction sequence (hand-built or a corrupted compiled module) with any stack contents,
+//! arguments and I/O results ends in an exit or a machine error; the host never panics.
+use std::{
+    cell::Cell,
+    collections::BTreeMap,
+    num::NonZeroUsize,
+    str::FromStr,
+    sync::OnceLock,
+};
+
+use aranya_crypto::{BaseId, DeviceId, policy::CmdId};
+use aranya_policy_ast::{Identifier, Text};
+use aranya_policy_compiler::Compiler;
+use aranya_policy_lang::lang::parse_policy_document;
+use aranya_policy_module::{
+    ActionDef, CodeMap, CommandDef, ConstStruct, ConstValue, EnumDef, ExitReason, FactDef, Field, Instruction, Label,
+    LabelType, Meta, Persistence, ResultTypeKind, StructDef, Target, TypeKind, WrapType,
+};
+use aranya_policy_vm::{
+    ActionContext, CommandContext, Fact, FactKey, FactKeyList, FactValue, FactValueList, HashableValue, KVPair,
+    Machine, MachineError, MachineErrorType, MachineIO, MachineIOError, MachineStack, MachineStatus, OpenContext,
+    PolicyContext, SealContext, Stack, Struct, Value,
+};
+use proptest::prelude::*;
+use serde::{Deserialize, Serialize};
+use vcommon::{CaseInfo, CheckResult, Ctx, Failure, PartResult, Report, idx};
+
+use crate::policies;
+
+const STEP_BOUND: usize = 10_000;
+const SIZE_BOUND: usize = 200_000;
+const YIELD_BOUND: usize = 64;
+
+// ---- case data ---------------------------------------------------------------------------------------------
+
+#[derive(Clone, Debug, Serialize, Deserialize)]
+struct CodeMapSpec {
+    text: String,
+    /// (instruction, span start, span end) -- not necessarily sorted or in range
+    mapping: Vec<(usize, usize, usize)>,
+}
+
+#[derive(Clone, Debug, Serialize, Deserialize)]
+struct RawMachine {
+    prog: Vec<Instruction>,
+    struct_defs: Vec<StructDef>,
+    fact_defs: Vec<FactDef>,
+    enum_defs: Vec<EnumDef>,
+    command_defs: Vec<CommandDef>,
+    action_defs: Vec<ActionDef>,
+    globals: Vec<(Identifier, ConstValue)>,
+    labels: Vec<(Label, usize)>,
+    codemap: Option<CodeMapSpec>,
+}
+
+#[derive(Clone, Debug, Serialize, Deserialize)]
+enum Edit {
+    Replace(u16, Instruction),
+    Insert(u16, Instruction),
+    Delete(u16),
+    Swap(u16, u16),
+    /// n-th jump/branch/call/recall gets a new target
+    Retarget(u16, Target),
+    Truncate(u16),
+    DropStructDef(u16),
+    DropFactDef(u16),
+    DropEnumDef(u16),
+    ReplaceCodemap(Option<CodeMapSpec>),
+}
+
+#[derive(Clone, Debug, Serialize, Deserialize)]
+enum IoErr {
+    FactExists,
+    FactNotFound,
+    Internal,
+}
+
+#[derive(Clone, Debug, Serialize, Deserialize)]
+enum Row {
+    Err(IoErr),
+    /// the query's own keys plus these values
+    Echo(Vec<FactValue>),
+    Fixed(Vec<FactKey>, Vec<FactValue>),
+}
+
+#[derive(Clone, Debug, Serialize, Deserialize)]
+enum QueryScript {
+    Err(IoErr),
+    Rows(Vec<Row>),
+}
+
+#[derive(Clone, Debug, Serialize, Deserialize)]
+struct FfiScript {
+    pops: u8,
+    pushes: Vec<Value>,
+    /// 0 = ok
+    err: u8,
+}
+
+#[derive(Clone, Debug, Default, Serialize, Deserialize)]
+struct IoScript {
+    queries: Vec<QueryScript>,
+    inserts: Vec<Option<IoErr>>,
+    deletes: Vec<Option<IoErr>>,
+    ffi: Vec<FfiScript>,
+}
+
+#[derive(Clone, Debug, Serialize, Deserialize)]
+enum Entry {
+    /// start at this address with `stack` as initial stack
+    Pc(usize),
+    /// `labels` index (sorted order); arguments built for the label's kind from `data`
+    Label(u16),
+    Action(Identifier, Vec<Value>),
+    Command(Struct, Struct),
+    Seal(Struct, Vec<u8>),
+    Open(Struct, Vec<u8>, Struct),
+}
+
+#[derive(Clone, Debug, Serialize, Deserialize)]
+struct CtxSpec {
+    /// 0 action, 1 seal, 2 open, 3 policy, 4 recall, >=5: whatever fits the entry
+    kind: u8,
+    name: Identifier,
+    seed: u8,
+}
+
+#[derive(Clone, Debug, Serialize, Deserialize)]
+enum Prog {
+    Raw(RawMachine),
+    Mutated { base: u16, edits: Vec<Edit> },
+}
+
+#[derive(Clone, Debug, Serialize, Deserialize)]
+struct Case {
+    prog: Prog,
+    entry: Entry,
+    ctx: CtxSpec,
+    stack: Vec<Value>,
+    io: IoScript,
+    data: Vec<u8>,
+}
+
+// ---- generators ---------------------------------------------------------------------------------------------
+
+const NAMES: &[&str] = &[
+    "a", "b", "c", "x", "y", "n", "i", "this", "envelope", "payload", "S", "T", "F", "G", "E", "Cmd", "act", "k", "v",
+];
+
+fn id(s: &str) -> Identifier {
+    Identifier::from_str(s).expect("identifier")
+}
+
+fn ident_s() -> impl Strategy<Value = Identifier> {
+    prop_oneof![
+        12 => prop::sample::select(NAMES.to_vec()).prop_map(id),
+        1 => "[a-zA-Z][a-zA-Z0-9_]{0,30}".prop_map(|s| id(&s)),
+    ]
+}
+
+fn text_s() -> impl Strategy<Value = Text> {
+    prop_oneof![
+        3 => "[a-z]{0,6}",
+        1 => "[^\\x00]{0,30}",
+    ]
+    .prop_map(|s| Text::from_str(&s).expect("no NUL"))
+}
+
+fn int_s() -> impl Strategy<Value = i64> {
+    prop_oneof![4 => -3i64..4, 2 => any::<i64>(), 1 => Just(i64::MAX), 1 => Just(i64::MIN)]
+}
+
+fn type_s() -> impl Strategy<Value = TypeKind> {
+    let leaf = prop_oneof![
+        Just(TypeKind::Unit),
+        Just(TypeKind::String),
+        Just(TypeKind::Bytes),
+        Just(TypeKind::Int),
+        Just(TypeKind::Bool),
+        Just(TypeKind::Id),
+        Just(TypeKind::Never),
+        // names that may be undefined; struct references are made acyclic when the machine is built
+        ident_s().prop_map(TypeKind::Struct),
+        ident_s().prop_map(TypeKind::Enum),
+    ];
+    leaf.prop_recursive(2, 6, 2, |inner| {
+        prop_oneof![
+            inner.clone().prop_map(|t| TypeKind::Optional(Box::new(t))),
+            (inner.clone(), inner).prop_map(|(ok, err)| TypeKind::Result(Box::new(ResultTypeKind { ok, err }))),
+        ]
+    })
+}
+
+fn fields_s() -> impl Strategy<Value = Vec<Field>> {
+    prop::collection::vec((ident_s(), type_s()).prop_map(|(name, ty)| Field { name, ty }), 0..4)
+}
+
+fn const_s() -> impl Strategy<Value = ConstValue> {
+    let leaf = prop_oneof![
+        1 => Just(ConstValue::Unit),
+        4 => int_s().prop_map(ConstValue::Int),
+        3 => any::<bool>().prop_map(ConstValue::Bool),
+        2 => text_s().prop_map(ConstValue::String),
+        2 => (ident_s(), int_s()).prop_map(|(n, v)| ConstValue::Enum(n, v)),
+        1 => Just(ConstValue::Option(None)),
+    ];
+    leaf.prop_recursive(3, 10, 3, |inner| {
+        prop_oneof![
+            inner.clone().prop_map(|v| ConstValue::Option(Some(Box::new(v)))),
+            inner.clone().prop_map(|v| ConstValue::Result(Ok(Box::new(v)))),
+            inner.clone().prop_map(|v| ConstValue::Result(Err(Box::new(v)))),
+            (ident_s(), prop::collection::vec((ident_s(), inner), 0..3)).prop_map(|(name, f)| {
+                ConstValue::Struct(ConstStruct { name, fields: f.into_iter().collect() })
+            }),
+        ]
+    })
+}
+
+fn hashable_s() -> impl Strategy<Value = HashableValue> {
+    prop_oneof![
+        int_s().prop_map(HashableValue::Int),
+        any::<bool>().prop_map(HashableValue::Bool),
+        text_s().prop_map(HashableValue::String),
+        any::<[u8; 32]>().prop_map(|b| HashableValue::Id(BaseId::from_bytes(b))),
+        (ident_s(), int_s()).prop_map(|(n, v)| HashableValue::Enum(n, v)),
+    ]
+}
+
+fn value_s() -> impl Strategy<Value = Value> {
+    let leaf = prop_oneof![
+        1 => Just(Value::Unit),
+        4 => int_s().prop_map(Value::Int),
+        3 => any::<bool>().prop_map(Value::Bool),
+        2 => text_s().prop_map(Value::String),
+        2 => prop::collection::vec(any::<u8>(), 0..40).prop_map(Value::Bytes),
+        1 => any::<[u8; 32]>().prop_map(|b| Value::Id(BaseId::from_bytes(b))),
+        2 => (ident_s(), int_s()).prop_map(|(n, v)| Value::Enum(n, v)),
+        2 => ident_s().prop_map(Value::Identifier),
+        1 => Just(Value::Option(None)),
+    ];
+    leaf.prop_recursive(3, 12, 3, |inner| {
+        prop_oneof![
+            2 => inner.clone().prop_map(|v| Value::Option(Some(Box::new(v)))),
+            1 => inner.clone().prop_map(|v| Value::Result(Ok(Box::new(v)))),
+            1 => inner.clone().prop_map(|v| Value::Result(Err(Box::new(v)))),
+            3 => (ident_s(), prop::collection::vec((ident_s(), inner.clone()), 0..4))
+                .prop_map(|(name, f)| Value::Struct(Struct { name, fields: f.into_iter().collect() })),
+            2 => (
+                ident_s(),
+                prop::collection::vec((ident_s(), hashable_s()), 0..3),
+                prop::collection::vec((ident_s(), inner), 0..3)
+            )
+                .prop_map(|(name, k, v)| {
+                    Value::Fact(Fact {
+                        name,
+                        keys: k.into_iter().map(|(i, v)| FactKey::new(i, v)).collect(),
+                        values: v.into_iter().map(|(i, v)| FactValue::new(i, v)).collect(),
+                    })
+                }),
+        ]
+    })
+}
+
+fn label_s() -> impl Strategy<Value = Label> {
+    (
+        ident_s(),
+        prop::sample::select(vec![
+            LabelType::Action,
+            LabelType::CommandPolicy,
+            LabelType::CommandRecall,
+            LabelType::CommandSeal,
+            LabelType::CommandOpen,
+            LabelType::Temporary,
+            LabelType::Function,
+        ]),
+    )
+        .prop_map(|(n, t)| Label::new(n, t))
+}
+
+fn target_s() -> impl Strategy<Value = Target> {
+    prop_oneof![
+        12 => (0usize..48).prop_map(Target::Resolved),
+        1 => any::<usize>().prop_map(Target::Resolved),
+        1 => Just(Target::Resolved(usize::MAX)),
+        1 => label_s().prop_map(Target::Unresolved),
+    ]
+}
+
+fn wrap_s() -> impl Strategy<Value = WrapType> {
+    prop::sample::select(vec![WrapType::Ok, WrapType::Err, WrapType::Some])
+}
+
+/// Operand of MStructSet / MStructGet. The implementation allocates `n` slots up front, so operands for which that
+/// allocation would neither be small nor overflow `isize` (process abort instead of panic) are left to the
+/// `alloc_probe` part, which runs in a child process.
+fn count_s() -> impl Strategy<Value = NonZeroUsize> {
+    prop_oneof![
+        12 => 1usize..5,
+        2 => 1usize..300,
+        1 => (1usize << 60)..usize::MAX,
+        1 => Just(usize::MAX),
+    ]
+    .prop_map(|n| NonZeroUsize::new(n).unwrap())
+}
+
+fn instr_s() -> impl Strategy<Value = Instruction> {
+    use Instruction as I;
+    prop_oneof![
+        10 => const_s().prop_map(I::Const),
+        4 => ident_s().prop_map(I::Identifier),
+        4 => ident_s().prop_map(I::Def),
+        4 => ident_s().prop_map(I::Get),
+        4 => Just(I::Dup),
+        2 => Just(I::Pop),
+        2 => Just(I::Block),
+        2 => Just(I::End),
+        3 => target_s().prop_map(I::Jump),
+        3 => target_s().prop_map(I::Branch),
+        1 => prop_oneof![Just(I::Next), Just(I::Last)],
+        3 => target_s().prop_map(I::Call),
+        2 => target_s().prop_map(I::Recall),
+        3 => (prop_oneof![0usize..3, any::<usize>()], prop_oneof![0usize..3, any::<usize>()]).prop_map(|(m, p)| I::ExtCall(m, p)),
+        3 => Just(I::Return),
+        2 => prop::sample::select(vec![ExitReason::Normal, ExitReason::Yield, ExitReason::Check, ExitReason::Panic]).prop_map(I::Exit),
+        6 => prop::sample::select(vec![I::Add, I::Sub, I::SaturatingAdd, I::SaturatingSub, I::Not, I::Gt, I::Lt, I::Eq]),
+        3 => ident_s().prop_map(I::FactNew),
+        3 => ident_s().prop_map(I::FactKeySet),
+        3 => ident_s().prop_map(I::FactValueSet),
+        3 => ident_s().prop_map(I::StructNew),
+        3 => ident_s().prop_map(I::StructSet),
+        3 => ident_s().prop_map(I::StructGet),
+        3 => count_s().prop_map(I::MStructSet),
+        3 => count_s().prop_map(I::MStructGet),
+        2 => ident_s().prop_map(I::Cast),
+        3 => wrap_s().prop_map(I::Wrap),
+        2 => wrap_s().prop_map(I::Is),
+        3 => wrap_s().prop_map(I::Unwrap),
+        8 => prop::sample::select(vec![I::Publish, I::Create, I::Delete, I::Update, I::Emit, I::Query, I::QueryStart, I::Serialize, I::Deserialize]),
+        2 => int_s().prop_map(I::FactCount),
+        2 => ident_s().prop_map(I::QueryNext),
+        2 => Just(I::SaveSP),
+        2 => Just(I::RestoreSP),
+        1 => prop_oneof![any::<bool>().prop_map(|b| I::Meta(Meta::Finish(b))), (ident_s(), ident_s()).prop_map(|(a, b)| I::Meta(Meta::FFI(a, b)))],
+    ]
+}
+
+/// Stack-coherent snippets so that execution gets past the first few instructions.
+fn snippet_s() -> impl Strategy<Value = Vec<Instruction>> {
+    use Instruction as I;
+    let fact = (
+        ident_s(),
+        prop::collection::vec((const_s(), ident_s(), any::<bool>()), 0..3),
+        prop::sample::select(vec![I::Query, I::Create, I::Delete, I::QueryStart, I::FactCount(2), I::FactCount(i64::MAX), I::Dup]),
+    )
+        .prop_map(|(name, sets, last)| {
+            let mut v = vec![I::FactNew(name)];
+            for (c, f, key) in sets {
+                v.push(I::Const(c));
+                v.push(if key { I::FactKeySet(f) } else { I::FactValueSet(f) });
+            }
+            v.push(last);
+            v
+        });
+    let strukt = (
+        ident_s(),
+        prop::collection::vec((const_s(), ident_s()), 0..3),
+        prop_oneof![
+            prop::sample::select(vec![I::Emit, I::Publish, I::Serialize, I::Dup, I::Pop]),
+            ident_s().prop_map(I::StructGet),
+            ident_s().prop_map(I::Cast),
+            ident_s().prop_map(I::Def),
+        ],
+    )
+        .prop_map(|(name, sets, last)| {
+            let mut v = vec![I::StructNew(name)];
+            for (c, f) in sets {
+                v.push(I::Const(c));
+                v.push(I::StructSet(f));
+            }
+            v.push(last);
+            v
+        });
+    let mstruct = (ident_s(), prop::collection::vec((ident_s(), const_s()), 1..4), any::<bool>(), -1i8..2).prop_map(
+        |(name, sets, get, off)| {
+            let mut v = vec![I::StructNew(name)];
+            let n = sets.len();
+            for (f, c) in &sets {
+                v.push(I::Identifier(f.clone()));
+                v.push(I::Const(c.clone()));
+            }
+            let m = NonZeroUsize::new((n as i64 + off as i64).max(1) as usize).unwrap();
+            v.push(I::MStructSet(m));
+            if get {
+                for (f, _) in &sets {
+                    v.push(I::Identifier(f.clone()));
+                }
+                v.push(I::MStructGet(m));
+            }
+            v
+        },
+    );
+    let arith = (
+        const_s(),
+        const_s(),
+        prop::sample::select(vec![I::Add, I::Sub, I::SaturatingAdd, I::SaturatingSub, I::Gt, I::Lt, I::Eq]),
+        prop::option::of(wrap_s()),
+    )
+        .prop_map(|(a, b, op, un)| {
+            let mut v = vec![I::Const(a), I::Const(b), op];
+            if let Some(w) = un {
+                v.push(I::Unwrap(w));
+            }
+            v
+        });
+    let wrap = (const_s(), wrap_s(), wrap_s(), wrap_s()).prop_map(|(c, a, b, d)| vec![I::Const(c), I::Wrap(a), I::Dup, I::Is(b), I::Pop, I::Unwrap(d)]);
+    let scope = (ident_s(), const_s(), ident_s()).prop_map(|(a, c, b)| vec![I::Block, I::Const(c), I::Def(a), I::Get(b), I::End]);
+    let query_loop = (ident_s(), ident_s(), target_s()).prop_map(|(f, v, t)| vec![I::FactNew(f), I::QueryStart, I::QueryNext(v), I::Branch(t)]);
+    let sp = (const_s(), const_s()).prop_map(|(a, b)| vec![I::SaveSP, I::Const(a), I::Const(b), I::RestoreSP]);
+    let cond = (any::<bool>(), target_s()).prop_map(|(b, t)| vec![I::Const(ConstValue::Bool(b)), I::Branch(t)]);
+    prop_oneof![
+        4 => fact,
+        4 => strukt,
+        3 => mstruct,
+        2 => arith,
+        2 => wrap,
+        2 => scope,
+        2 => query_loop,
+        1 => sp,
+        2 => cond,
+        8 => instr_s().prop_map(|i| vec![i]),
+    ]
+}
+
+fn codemap_s() -> impl Strategy<Value = Option<CodeMapSpec>> {
+    prop::option::weighted(
+        0.4,
+        (
+            prop_oneof![Just(String::new()), "[a-z \\n]{0,20}", "[a-z\u{e9}\u{4e2d}\\n]{0,12}"],
+            prop::collection::vec((0usize..40, 0usize..24, 0usize..24), 0..5),
+            any::<bool>(),
+        )
+            .prop_map(|(text, mut mapping, sort)| {
+                if sort {
+                    mapping.sort();
+                    for m in &mut mapping {
+                        if m.1 > m.2 {
+                            std::mem::swap(&mut m.1, &mut m.2);
+                        }
+                    }
+                }
+                CodeMapSpec { text, mapping }
+            }),
+    )
+}
+
+fn raw_machine_s() -> impl Strategy<Value = RawMachine> {
+    (
+        prop::collection::vec(snippet_s(), 1..10),
+        prop::collection::vec((ident_s(), fields_s()).prop_map(|(name, items)| StructDef { name, items }), 0..4),
+        prop::collection::vec(
+            (ident_s(), fields_s(), fields_s(), any::<bool>()).prop_map(|(name, key, value, immutable)| FactDef { name, key, value, immutable }),
+            0..3,
+        ),
+        prop::collection::vec(
+            (ident_s(), prop::collection::vec((ident_s(), int_s()), 0..4)).prop_map(|(name, variants)| EnumDef { name, variants }),
+            0..3,
+        ),
+        prop::collection::vec(
+            (ident_s(), fields_s(), any::<bool>()).prop_map(|(name, fields, e)| CommandDef {
+                name,
+                persistence: if e { Persistence::Ephemeral } else { Persistence::Persistent },
+                attributes: vec![],
+                fields,
+            }),
+            0..3,
+        ),
+        prop::collection::vec(
+            (ident_s(), fields_s(), type_s()).prop_map(|(name, params, result_type)| ActionDef {
+                name,
+                persistence: Persistence::Persistent,
+                params,
+                result_type,
+            }),
+            0..3,
+        ),
+        prop::collection::vec((ident_s(), const_s()), 0..3),
+        prop::collection::vec((label_s(), prop_oneof![4 => 0usize..40, 1 => any::<usize>()]), 0..4),
+        codemap_s(),
+    )
+        .prop_map(|(snips, struct_defs, fact_defs, enum_defs, command_defs, action_defs, globals, labels, codemap)| RawMachine {
+            prog: snips.into_iter().flatten().collect(),
+            struct_defs,
+            fact_defs,
+            enum_defs,
+            command_defs,
+            action_defs,
+            globals,
+            labels,
+            codemap,
+        })
+}
+
+fn ioerr_s() -> impl Strategy<Value = IoErr> {
+    prop::sample::select(vec![IoErr::FactExists, IoErr::FactNotFound, IoErr::Internal])
+}
+
+fn io_s() -> impl Strategy<Value = IoScript> {
+    let fv = || prop::collection::vec((ident_s(), value_s()).prop_map(|(i, v)| FactValue::new(i, v)), 0..3);
+    let row = prop_oneof![
+        1 => ioerr_s().prop_map(Row::Err),
+        4 => fv().prop_map(Row::Echo),
+        2 => (prop::collection::vec((ident_s(), hashable_s()).prop_map(|(i, v)| FactKey::new(i, v)), 0..3), fv())
+            .prop_map(|(k, v)| Row::Fixed(k, v)),
+    ];
+    let q = prop_oneof![
+        1 => ioerr_s().prop_map(QueryScript::Err),
+        5 => prop::collection::vec(row, 0..4).prop_map(QueryScript::Rows),
+    ];
+    let ffi = (0u8..3, prop::collection::vec(value_s(), 0..3), prop_oneof![3 => Just(0u8), 1 => 1u8..6])
+        .prop_map(|(pops, pushes, err)| FfiScript { pops, pushes, err });
+    (
+        prop::collection::vec(q, 0..4),
+        prop::collection::vec(prop::option::weighted(0.3, ioerr_s()), 0..3),
+        prop::collection::vec(prop::option::weighted(0.3, ioerr_s()), 0..3),
+        prop::collection::vec(ffi, 0..3),
+    )
+        .prop_map(|(queries, inserts, deletes, ffi)| IoScript { queries, inserts, deletes, ffi })
+}
+
+fn struct_value_s() -> impl Strategy<Value = Struct> {
+    (ident_s(), prop::collection::vec((ident_s(), value_s()), 0..4)).prop_map(|(name, f)| Struct { name, fields: f.into_iter().collect() })
+}
+
+fn entry_raw_s() -> impl Strategy<Value = Entry> {
+    prop_oneof![
+        10 => Just(Entry::Pc(0)),
+        3 => (0usize..40).prop_map(Entry::Pc),
+        1 => any::<usize>().prop_map(Entry::Pc),
+        2 => any::<u16>().prop_map(Entry::Label),
+        2 => (ident_s(), prop::collection::vec(value_s(), 0..4)).prop_map(|(n, a)| Entry::Action(n, a)),
+        2 => (struct_value_s(), struct_value_s()).prop_map(|(a, b)| Entry::Command(a, b)),
+        1 => (struct_value_s(), prop::collection::vec(any::<u8>(), 0..20)).prop_map(|(a, b)| Entry::Seal(a, b)),
+        1 => (struct_value_s(), prop::collection::vec(any::<u8>(), 0..20), struct_value_s()).prop_map(|(a, b, c)| Entry::Open(a, b, c)),
+    ]
+}
+
+fn ctx_s() -> impl Strategy<Value = CtxSpec> {
+    (prop_oneof![1 => 0u8..5, 1 => Just(9u8)], ident_s(), any::<u8>()).prop_map(|(kind, name, seed)| CtxSpec { kind, name, seed })
+}
+
+fn raw_case() -> impl Strategy<Value = Case> {
+    (
+        raw_machine_s(),
+        entry_raw_s(),
+        ctx_s(),
+        prop::collection::vec(value_s(), 0..6),
+        io_s(),
+        prop::collection::vec(any::<u8>(), 0..40),
+    )
+        .prop_map(|(m, entry, ctx, stack, io, data)| Case { prog: Prog::Raw(m), entry, ctx, stack, io, data })
+}
+
+fn edit_s() -> impl Strategy<Value = Edit> {
+    prop_oneof![
+        6 => (any::<u16>(), instr_s()).prop_map(|(p, i)| Edit::Replace(p, i)),
+        3 => (any::<u16>(), instr_s()).prop_map(|(p, i)| Edit::Insert(p, i)),
+        4 => any::<u16>().prop_map(Edit::Delete),
+        2 => (any::<u16>(), any::<u16>()).prop_map(|(a, b)| Edit::Swap(a, b)),
+        4 => (any::<u16>(), prop_oneof![4 => (0usize..400).prop_map(Target::Resolved), 1 => target_s()]).prop_map(|(p, t)| Edit::Retarget(p, t)),
+        1 => any::<u16>().prop_map(Edit::Truncate),
+        1 => any::<u16>().prop_map(Edit::DropStructDef),
+        1 => any::<u16>().prop_map(Edit::DropFactDef),
+        1 => any::<u16>().prop_map(Edit::DropEnumDef),
+        1 => codemap_s().prop_map(Edit::ReplaceCodemap),
+    ]
+}
+
+fn mutated_case() -> impl Strategy<Value = Case> {
+    (
+        any::<u16>(),
+        prop::collection::vec(edit_s(), 0..4),
+        any::<u16>(),
+        ctx_s(),
+        prop::collection::vec(value_s(), 0..3),
+        io_s(),
+        prop::collection::vec(any::<u8>(), 0..64),
+    )
+        .prop_map(|(base, edits, label, ctx, stack, io, data)| Case {
+            prog: Prog::Mutated { base, edits },
+            entry: Entry::Label(label),
+            ctx,
+            stack,
+            io,
+            data,
+        })
+}
+
+// ---- building machines -----------------------------------------------------------------------------------------
+
+fn codemap_from(spec: &CodeMapSpec) -> Option<CodeMap> {
+    // through serde, as a loaded module would get it (the constructor API cannot express unsorted / reversed spans)
+    let mapping: Vec<serde_json::Value> = spec
+        .mapping
+        .iter()
+        .map(|(i, s, e)| serde_json::json!([i, {"start": s, "end": e}]))
+        .collect();
+    serde_json::from_value(serde_json::json!({"text": spec.text, "mapping": mapping})).ok()
+}
+
+/// Struct-typed fields may only name structs that sort before the owner: keeps struct definitions acyclic
+/// (a cyclic definition makes `Deserialize` recurse without consuming input, i.e. exhaust the native stack, which
+/// is outside what this check can observe in-process).
+fn acyclic(t: &TypeKind, owner: &Identifier) -> TypeKind {
+    match t {
+        TypeKind::Struct(n) if n.as_str() >= owner.as_str() => TypeKind::Int,
+        TypeKind::Optional(i) => TypeKind::Optional(Box::new(acyclic(i, owner))),
+        TypeKind::Result(r) => TypeKind::Result(Box::new(ResultTypeKind { ok: acyclic(&r.ok, owner), err: acyclic(&r.err, owner) })),
+        other => other.clone(),
+    }
+}
+
+fn build_raw(r: &RawMachine) -> Machine {
+    let mut m = Machine::new(r.prog.clone());
+    for d in &r.struct_defs {
+        let mut d = d.clone();
+        for f in &mut d.items {
+            f.ty = acyclic(&f.ty, &d.name);
+        }
+        m.struct_defs.insert(d);
+    }
+    for d in &r.fact_defs {
+        m.fact_defs.insert(d.clone());
+    }
+    for d in &r.enum_defs {
+        m.enum_defs.insert(d.clone());
+    }
+    for d in &r.command_defs {
+        m.command_defs.insert(d.clone());
+    }
+    for d in &r.action_defs {
+        m.action_defs.insert(d.clone());
+    }
+    for (k, v) in &r.globals {
+        m.globals.insert(k.clone(), v.clone());
+    }
+    for (l, a) in &r.labels {
+        m.labels.insert(l.clone(), *a);
+    }
+    m.codemap = r.codemap.as_ref().and_then(codemap_from);
+    m
+}
+
+static BASES: OnceLock<Vec<Machine>> = OnceLock::new();
+
+fn bases() -> &'static Vec<Machine> {
+    BASES.get_or_init(|| {
+        let mut v = Vec::new();
+        for (i, src) in policies::RICH.iter().chain(policies::VALID.iter()).enumerate() {
+            let doc = policies::to_doc(src);
+            let ast = parse_policy_document(&doc).unwrap_or_else(|e| {
+                println!("INCONCLUSIVE property=C25 embedded policy {i} does not parse: {e}");
+                std::process::exit(2);
+            });
+            let module = Compiler::new(&ast).debug(true).compile().unwrap_or_else(|e| {
+                println!("INCONCLUSIVE property=C25 embedded policy {i} does not compile: {e}");
+                std::process::exit(2);
+            });
+            v.push(Machine::from_module(module).expect("module version"));
+            // without debug mode `todo()` is refused, so only some of the policies have a second build
+            if let Ok(module) = Compiler::new(&ast).debug(false).compile() {
+                v.push(Machine::from_module(module).expect("module version"));
+            }
+        }
+        v
+    })
+}
+
+fn build_mutated(base: u16, edits: &[Edit]) -> Machine {
+    let b = bases();
+    let mut m = b[idx(base, b.len())].clone();
+    for e in edits {
+        let n = m.progmem.len();
+        match e {
+            Edit::Replace(p, i) => {
+                if n > 0 {
+                    m.progmem[idx(*p, n)] = i.clone();
+                }
+            }
+            Edit::Insert(p, i) => m.progmem.insert(idx(*p, n + 1), i.clone()),
+            Edit::Delete(p) => {
+                if n > 0 {
+                    m.progmem.remove(idx(*p, n));
+                }
+            }
+            Edit::Swap(a, b) => {
+                if n > 0 {
+                    m.progmem.swap(idx(*a, n), idx(*b, n));
+                }
+            }
+            Edit::Retarget(p, t) => {
+                let jumps: Vec<usize> = m
+                    .progmem
+                    .iter()
+                    .enumerate()
+                    .filter(|(_, i)| matches!(i, Instruction::Jump(_) | Instruction::Branch(_) | Instruction::Call(_) | Instruction::Recall(_)))
+                    .map(|(k, _)| k)
+                    .collect();
+                if !jumps.is_empty() {
+                    let k = jumps[idx(*p, jumps.len())];
+                    m.progmem[k] = match &m.progmem[k] {
+                        Instruction::Jump(_) => Instruction::Jump(t.clone()),
+                        Instruction::Branch(_) => Instruction::Branch(t.clone()),
+                        Instruction::Call(_) => Instruction::Call(t.clone()),
+                        _ => Instruction::Recall(t.clone()),
+                    };
+                }
+            }
+            Edit::Truncate(p) => m.progmem.truncate(idx(*p, n + 1)),
+            Edit::DropStructDef(p) => {
+                let all: Vec<StructDef> = m.struct_defs.iter().cloned().collect();
+                if !all.is_empty() {
+                    let k = idx(*p, all.len());
+                    m.struct_defs = all.into_iter().enumerate().filter(|(i, _)| *i != k).map(|(_, d)| (d.name.clone(), d)).collect();
+                }
+            }
+            Edit::DropFactDef(p) => {
+                let all: Vec<FactDef> = m.fact_defs.iter().cloned().collect();
+                if !all.is_empty() {
+                    let k = idx(*p, all.len());
+                    m.fact_defs = all.into_iter().enumerate().filter(|(i, _)| *i != k).map(|(_, d)| (d.name.clone(), d)).collect();
+                }
+            }
+            Edit::DropEnumDef(p) => {
+                let all: Vec<EnumDef> = m.enum_defs.iter().cloned().collect();
+                if !all.is_empty() {
+                    let k = idx(*p, all.len());
+                    m.enum_defs = all.into_iter().enumerate().filter(|(i, _)| *i != k).map(|(_, d)| (d.name.clone(), d)).collect();
+                }
+            }
+            Edit::ReplaceCodemap(c) => m.codemap = c.as_ref().and_then(codemap_from),
+        }
+    }
+    m
+}
+
+// ---- scripted I/O ---------------------------------------------------------------------------------------------------
+
+struct ScriptIo<'a> {
+    s: &'a IoScript,
+    q: Cell<usize>,
+    i: usize,
+    d: usize,
+    f: Cell<usize>,
+    effects: usize,
+}
+
+impl<'a> ScriptIo<'a> {
+    fn new(s: &'a IoScript) -> Self {
+        Self { s, q: Cell::new(0), i: 0, d: 0, f: Cell::new(0), effects: 0 }
+    }
+}
+
+fn ioerr(e: &IoErr) -> MachineIOError {
+    match e {
+        IoErr::FactExists => MachineIOError::FactExists,
+        IoErr::FactNotFound => MachineIOError::FactNotFound,
+        IoErr::Internal => MachineIOError::Internal,
+    }
+}
+
+impl MachineIO<MachineStack> for ScriptIo<'_> {
+    type QueryIterator = std::vec::IntoIter<Result<(FactKeyList, FactValueList), MachineIOError>>;
+
+    fn fact_insert(
+        &mut self,
+        _name: Identifier,
+        key: impl IntoIterator<Item = FactKey>,
+        value: impl IntoIterator<Item = FactValue>,
+    ) -> Result<(), MachineIOError> {
+        let _ = key.into_iter().count();
+        let _ = value.into_iter().count();
+        let n = self.s.inserts.len();
+        let r = if n == 0 { None } else { self.s.inserts[self.i % n].as_ref() };
+        self.i += 1;
+        match r {
+            None => Ok(()),
+            Some(e) => Err(ioerr(e)),
+        }
+    }
+
+    fn fact_delete(&mut self, _name: Identifier, key: impl IntoIterator<Item = FactKey>) -> Result<(), MachineIOError> {
+        let _ = key.into_iter().count();
+        let n = self.s.deletes.len();
+        let r = if n == 0 { None } else { self.s.deletes[self.d % n].as_ref() };
+        self.d += 1;
+        match r {
+            None => Ok(()),
+            Some(e) => Err(ioerr(e)),
+        }
+    }
+
+    fn fact_query(&self, _name: Identifier, key: impl IntoIterator<Item = FactKey>) -> Result<Self::QueryIterator, MachineIOError> {
+        let qkeys: Vec<FactKey> = key.into_iter().collect();
+        let n = self.s.queries.len();
+        let k = self.q.get();
+        self.q.set(k + 1);
+        if n == 0 {
+            return Ok(Vec::new().into_iter());
+        }
+        match &self.s.queries[k % n] {
+            QueryScript::Err(e) => Err(ioerr(e)),
+            QueryScript::Rows(rows) => Ok(rows
+                .iter()
+                .map(|r| match r {
+                    Row::Err(e) => Err(ioerr(e)),
+                    Row::Echo(v) => Ok((qkeys.clone(), v.clone())),
+                    Row::Fixed(k, v) => Ok((k.clone(), v.clone())),
+                })
+                .collect::<Vec<_>>()
+                .into_iter()),
+        }
+    }
+
+    fn effect(&mut self, _name: Identifier, fields: impl IntoIterator<Item = KVPair>, _command: CmdId, _recalled: bool) {
+        let _ = fields.into_iter().count();
+        self.effects += 1;
+    }
+
+    fn call(&self, module: usize, procedure: usize, stack: &mut MachineStack, _ctx: &CommandContext) -> Result<(), MachineError> {
+        let n = self.s.ffi.len();
+        let k = self.f.get();
+        self.f.set(k + 1);
+        if n == 0 {
+            return Err(MachineError::new(MachineErrorType::FfiModuleNotDefined(module)));
+        }
+        let f = &self.s.ffi[k % n];
+        for _ in 0..f.pops {
+            stack.pop_value().map_err(MachineError::new)?;
+        }
+        for v in &f.pushes {
+            stack.push_value(v.clone()).map_err(MachineError::new)?;
+        }
+        match f.err {
+            0 => Ok(()),
+            1 => Err(MachineError::new(MachineErrorType::FfiModuleNotDefined(module))),
+            2 => Err(MachineError::new(MachineErrorType::FfiProcedureNotDefined(id("m"), procedure))),
+            3 => Err(MachineError::new(MachineErrorType::IO(MachineIOError::Internal))),
+            4 => Err(MachineError::new(MachineErrorType::Unknown("ffi".into()))),
+            _ => Err(MachineError::new(MachineErrorType::StackUnderflow)),
+        }
+    }
+}
+
+// ---- arguments for compiled entry points ----------------------------------------------------------------------------
+
+struct Cur<'a> {
+    d: &'a [u8],
+    i: usize,
+}
+
+impl Cur<'_> {
+    fn u8(&mut self) -> u8 {
+        let v = self.d.get(self.i).copied().unwrap_or(0);
+        self.i += 1;
+        v
+    }
+}
+
+fn value_of(m: &Machine, t: &TypeKind, c: &mut Cur<'_>, depth: usize) -> Value {
+    match t {
+        TypeKind::Unit | TypeKind::Never => Value::Unit,
+        TypeKind::String => Value::String(Text::from_str(["", "x", "X", "hello", "O"][(c.u8() % 5) as usize]).unwrap()),
+        TypeKind::Bytes => Value::Bytes((0..c.u8() % 6).map(|_| c.u8()).collect()),
+        TypeKind::Int => Value::Int(match c.u8() % 5 {
+            0 => 0,
+            1 => c.u8() as i8 as i64,
+            2 => i64::MAX,
+            3 => i64::MIN,
+            _ => 7,
+        }),
+        TypeKind::Bool => Value::Bool(c.u8() & 1 == 1),
+        TypeKind::Id => Value::Id(BaseId::from_bytes([c.u8() % 3; 32])),
+        TypeKind::Struct(n) => {
+            let mut fields = BTreeMap::new();
+            if depth < 6 {
+                if let Some(d) = m.struct_defs.get(n) {
+                    for f in &d.items {
+                        fields.insert(f.name.clone(), value_of(m, &f.ty, c, depth + 1));
+                    }
+                }
+            }
+            Value::Struct(Struct { name: n.clone(), fields })
+        }
+        TypeKind::Enum(n) => {
+            let v = m.enum_defs.get(n).map(|e| e.variants.clone()).unwrap_or_default();
+            let x = if v.is_empty() { 0 } else { v[(c.u8() as usize) % v.len()].1 };
+            Value::Enum(n.clone(), x)
+        }
+        TypeKind::Optional(i) => {
+            if c.u8() % 3 == 0 {
+                Value::Option(None)
+            } else {
+                Value::Option(Some(Box::new(value_of(m, i, c, depth + 1))))
+            }
+        }
+        TypeKind::Result(r) => {
+            if c.u8() & 1 == 0 {
+                Value::Result(Ok(Box::new(value_of(m, &r.ok, c, depth + 1))))
+            } else {
+                Value::Result(Err(Box::new(value_of(m, &r.err, c, depth + 1))))
+            }
+        }
+    }
+}
+
+fn cmd_struct(m: &Machine, name: &Identifier, c: &mut Cur<'_>) -> Struct {
+    let mut fields = BTreeMap::new();
+    if let Some(d) = m.command_defs.get(name) {
+        for f in &d.fields {
+            fields.insert(f.name.clone(), value_of(m, &f.ty, c, 0));
+        }
+    }
+    Struct { name: name.clone(), fields }
+}
+
+fn envelope(c: &mut Cur<'_>) -> Struct {
+    let mut fields = BTreeMap::new();
+    fields.insert(id("parent_id"), Value::Id(BaseId::from_bytes([c.u8() % 3; 32])));
+    fields.insert(id("author_id"), Value::Id(BaseId::from_bytes([1; 32])));
+    fields.insert(id("command_id"), Value::Id(BaseId::from_bytes([2; 32])));
+    fields.insert(id("payload"), Value::Bytes(vec![c.u8()]));
+    fields.insert(id("signature"), Value::Bytes(vec![]));
+    Struct { name: id("Envelope"), fields }
+}
+
+fn make_ctx(kind: u8, name: &Identifier, seed: u8) -> CommandContext {
+    let cid = CmdId::from_bytes([seed; 32]);
+    match kind {
+        0 => CommandContext::Action(ActionContext { name: name.clone(), head_id: cid }),
+        1 => CommandContext::Seal(SealContext { name: name.clone(), head_id: cid }),
+        2 => CommandContext::Open(OpenContext { name: name.clone() }),
+        3 | 4 => {
+            let p = PolicyContext {
+                name: name.clone(),
+                id: cid,
+                author: DeviceId::from_bytes([seed.wrapping_add(1); 32]),
+                version: BaseId::from_bytes([0; 32]),
+            };
+            if kind == 3 { CommandContext::Policy(p) } else { CommandContext::Recall(p) }
+        }
+        _ => unreachable!(),
+    }
+}
+
+// ---- execution --------------------------------------------------------------------------------------------------------
+
+fn vsize(v: &Value, budget: &mut usize) {
+    if *budget == 0 {
+        return;
+    }
+    *budget -= 1;
+    match v {
+        Value::Struct(s) => {
+            for x in s.fields.values() {
+                vsize(x, budget);
+            }
+        }
+        Value::Fact(f) => {
+            *budget = budget.saturating_sub(f.keys.len());
+            for x in &f.values {
+                vsize(&x.value, budget);
+            }
+        }
+        Value::Option(Some(b)) => vsize(b, budget),
+        Value::Result(Ok(b)) | Value::Result(Err(b)) => vsize(b, budget),
+        Value::Bytes(b) => *budget = budget.saturating_sub(b.len() / 64),
+        _ => {}
+    }
+}
+
+#[derive(Debug, Clone, PartialEq)]
+enum Outcome {
+    Exit(String),
+    Error(String),
+    StepBound,
+    SizeBound,
+    YieldBound,
+    SetupError(String),
+}
+
+struct Plan {
+    ctx: CommandContext,
+    /// what to do before stepping
+    setup: Setup,
+}
+
+enum Setup {
+    Pc(Vec<Value>),
+    Label(Label, Vec<Value>),
+    Action(Identifier, Vec<Value>),
+    Command(Struct, Struct),
+}
+
+fn plan(case: &Case, m: &Machine) -> Plan {
+    let mut cur = Cur { d: &case.data, i: 0 };
+    let ctx_for = |natural: u8, name: &Identifier| -> CommandContext {
+        let kind = if case.ctx.kind < 5 { case.ctx.kind } else { natural };
+        // a context for another command name now and then
+        let n = if case.ctx.kind < 5 && case.ctx.seed % 4 == 0 { &case.ctx.name } else { name };
+        make_ctx(kind, n, case.ctx.seed)
+    };
+    match &case.entry {
+        Entry::Pc(_) => Plan { ctx: ctx_for(3, &case.ctx.name), setup: Setup::Pc(case.stack.clone()) },
+        Entry::Action(n, args) => Plan { ctx: ctx_for(0, n), setup: Setup::Action(n.clone(), args.clone()) },
+        Entry::Command(t, e) => Plan { ctx: ctx_for(3, &t.name), setup: Setup::Command(t.clone(), e.clone()) },
+        Entry::Seal(t, p) => Plan {
+            ctx: ctx_for(1, &t.name),
+            setup: Setup::Label(Label::new(t.name.clone(), LabelType::CommandSeal), vec![Value::Struct(t.clone()), Value::Bytes(p.clone())]),
+        },
+        Entry::Open(t, p, e) => Plan {
+            ctx: ctx_for(2, &t.name),
+            setup: Setup::Label(
+                Label::new(t.name.clone(), LabelType::CommandOpen),
+                vec![Value::Struct(t.clone()), Value::Bytes(p.clone()), Value::Struct(e.clone())],
+            ),
+        },
+        Entry::Label(k) => {
+            let labels: Vec<&Label> = m.labels.keys().collect();
+            if labels.is_empty() {
+                return Plan { ctx: ctx_for(3, &case.ctx.name), setup: Setup::Pc(case.stack.clone()) };
+            }
+            let l = labels[idx(*k, labels.len())].clone();
+            match l.ltype {
+                LabelType::Action => {
+                    let args = m
+                        .action_defs
+                        .get(&l.name)
+                        .map(|d| d.params.iter().map(|p| value_of(m, &p.ty, &mut cur, 0)).collect())
+                        .unwrap_or_default();
+                    Plan { ctx: ctx_for(0, &l.name), setup: Setup::Action(l.name.clone(), args) }
+                }
+                LabelType::CommandPolicy => {
+                    let this = cmd_struct(m, &l.name, &mut cur);
+                    Plan { ctx: ctx_for(3, &l.name), setup: Setup::Command(this, envelope(&mut cur)) }
+                }
+                LabelType::CommandRecall => {
+                    let mut st = vec![Value::Struct(cmd_struct(m, &l.name, &mut cur)), Value::Struct(envelope(&mut cur))];
+                    st.extend(case.stack.iter().cloned());
+                    Plan { ctx: ctx_for(4, &l.name), setup: Setup::Label(l, st) }
+                }
+                LabelType::CommandSeal => {
+                    let st = vec![Value::Struct(cmd_struct(m, &l.name, &mut cur)), Value::Bytes(vec![cur.u8(), cur.u8()])];
+                    Plan { ctx: ctx_for(1, &l.name), setup: Setup::Label(l, st) }
+                }
+                LabelType::CommandOpen => {
+                    let st = vec![
+                        Value::Struct(cmd_struct(m, &l.name, &mut cur)),
+                        Value::Bytes(vec![cur.u8(), cur.u8()]),
+                        Value::Struct(envelope(&mut cur)),
+                    ];
+                    Plan { ctx: ctx_for(2, &l.name), setup: Setup::Label(l, st) }
+                }
+                LabelType::Function | LabelType::Temporary => {
+                    Plan { ctx: ctx_for(3, &case.ctx.name), setup: Setup::Label(l, case.stack.clone()) }
+                }
+            }
+        }
+    }
+}
+
+const ENTRY: &str = "vh_entry_point";
+
+/// Runs the case once. `bounded`: step by step with the step / size bounds; otherwise through `RunState::run`
+/// (only used for cases the bounded run has shown to terminate).
+fn execute(m: &Machine, case: &Case, p: &Plan, bounded: bool, last_pc: &Cell<usize>, steps_out: &Cell<usize>) -> Outcome {
+    let mut io = ScriptIo::new(&case.io);
+    let mut rs = m.create_run_state(&mut io, p.ctx.clone());
+    let setup: Result<(), MachineError> = (|| {
+        match &p.setup {
+            Setup::Pc(st) => {
+                rs.set_pc_by_label(&Label::new(id(ENTRY), LabelType::Temporary))?;
+                for v in st {
+                    rs.stack.push_value(v.clone()).map_err(MachineError::new)?;
+                }
+            }
+            Setup::Label(l, st) => {
+                rs.set_pc_by_label(l)?;
+                for v in st {
+                    rs.stack.push_value(v.clone()).map_err(MachineError::new)?;
+                }
+            }
+            Setup::Action(n, args) => rs.setup_action(n.clone(), args.iter().cloned())?,
+            Setup::Command(this, env) => {
+                rs.setup_command(Label::new(this.name.clone(), LabelType::CommandPolicy), this.clone())?;
+                rs.stack.push_value(Value::Struct(env.clone())).map_err(MachineError::new)?;
+            }
+        }
+        Ok(())
+    })();
+    if let Err(e) = setup {
+        return Outcome::SetupError(format!("{:?}", e.err_type));
+    }
+    let mut yields = 0;
+    if bounded {
+        for step in 0..STEP_BOUND {
+            last_pc.set(rs.pc());
+            steps_out.set(step + 1);
+            match rs.step() {
+                Ok(MachineStatus::Executing) => {}
+                Ok(MachineStatus::Exited(ExitReason::Yield)) => {
+                    yields += 1;
+                    if yields >= YIELD_BOUND {
+                        return Outcome::YieldBound;
+                    }
+                }
+                Ok(MachineStatus::Exited(r)) => return Outcome::Exit(r.to_string()),
+                Err(e) => return Outcome::Error(format!("{:?}", std::mem::discriminant(&e.err_type))),
+            }
+            let mut budget = SIZE_BOUND;
+            for v in rs.stack.as_slice() {
+                vsize(v, &mut budget);
+            }
+            if budget == 0 {
+                return Outcome::SizeBound;
+            }
+        }
+        Outcome::StepBound
+    } else {
+        loop {
+            match rs.run() {
+                Ok(ExitReason::Yield) => {
+                    yields += 1;
+                    if yields >= YIELD_BOUND {
+                        return Outcome::YieldBound;
+                    }
+                }
+                Ok(r) => return Outcome::Exit(r.to_string()),
+                Err(e) => return Outcome::Error(format!("{:?}", std::mem::discriminant(&e.err_type))),
+            }
+        }
+    }
+}
+
+fn short_file(loc: &str) -> String {
+    let l = loc.rsplit_once(':').map(|x| x.0).unwrap_or(loc);
+    match l.find("crates/") {
+        Some(i) => l[i..].to_string(),
+        None => l.to_string(),
+    }
+}
+
+fn panic_failure(m: &Machine, msg: &str, loc: &str, pc: usize, how: &str) -> Failure {
+    let ins = m.progmem.get(pc);
+    let sig = match ins {
+        Some(Instruction::Next | Instruction::Last) if msg == "not yet implemented" => {
+            "vm panic: not yet implemented (Instruction::Next/Last)".to_string()
+        }
+        Some(Instruction::MStructSet(_)) if msg == "capacity overflow" => {
+            "vm panic: capacity overflow (Instruction::MStructSet operand used as allocation size)".to_string()
+        }
+        _ => {
+            let m: String = msg.chars().take(100).collect();
+            format!("vm panic: {m} @ {}", short_file(loc))
+        }
+    };
+    Failure::new(sig, format!("{how}: panic `{msg}` at {loc}; pc={pc} instruction={ins:?}"))
+}
+
+fn check(case: &Case, info: &mut CaseInfo) -> CheckResult {
+    let mut m = match &case.prog {
+        Prog::Raw(r) => {
+            info.label("raw");
+            build_raw(r)
+        }
+        Prog::Mutated { base, edits } => {
+            info.label(if edits.is_empty() { "compiled_unmodified" } else { "compiled_mutated" });
+            build_mutated(*base, edits)
+        }
+    };
+    if let Entry::Pc(a) = &case.entry {
+        m.labels.insert(Label::new(id(ENTRY), LabelType::Temporary), *a);
+    } else if matches!(&case.entry, Entry::Label(_)) && m.labels.is_empty() {
+        m.labels.insert(Label::new(id(ENTRY), LabelType::Temporary), 0);
+    }
+    let p = plan(case, &m);
+    let last_pc = Cell::new(0usize);
+    let steps = Cell::new(0usize);
+    let out = match vcommon::catch(|| execute(&m, case, &p, true, &last_pc, &steps)) {
+        Ok(o) => o,
+        Err((msg, loc)) => return Err(panic_failure(&m, &msg, &loc, last_pc.get(), "RunState::step")),
+    };
+    let n = steps.get();
+    info.label(match &out {
+        Outcome::Exit(r) => format!("exit_{r}"),
+        Outcome::Error(_) => "machine_error".to_string(),
+        Outcome::StepBound => "step_bound".to_string(),
+        Outcome::SizeBound => "size_bound".to_string(),
+        Outcome::YieldBound => "yield_bound".to_string(),
+        Outcome::SetupError(_) => "setup_error".to_string(),
+    });
+    info.label(match n {
+        0..=1 => "steps_0_1",
+        2..=5 => "steps_2_5",
+        6..=20 => "steps_6_20",
+        21..=100 => "steps_21_100",
+        _ => "steps_100_plus",
+    });
+    if n >= 3 {
+        info.nontrivial();
+    }
+    // the same case through RunState::run (error positioning happens there), when it is known to terminate
+    if matches!(out, Outcome::Exit(_) | Outcome::Error(_) | Outcome::YieldBound) {
+        let lp = Cell::new(usize::MAX);
+        let st = Cell::new(0usize);
+        match vcommon::catch(|| execute(&m, case, &p, false, &lp, &st)) {
+            Ok(o2) => {
+                vcommon::ensure!(
+                    o2 == out,
+                    "harness: run() and step() disagree (non-deterministic case?)",
+                    "step: {out:?} run: {o2:?}"
+                );
+            }
+            Err((msg, loc)) => return Err(panic_failure(&m, &msg, &loc, last_pc.get(), "RunState::run")),
+        }
+    }
+    Ok(())
+}
+
+// ---- child-process probe for operands that make the allocation fail instead of panic -----------------------------------
+
+pub fn child_main(spec: &str) -> ! {
+    let n: usize = spec.parse().unwrap_or(1);
+    let prog = vec![
+        Instruction::StructNew(id("S")),
+        Instruction::Identifier(id("a")),
+        Instruction::Const(ConstValue::Int(1)),
+        Instruction::MStructSet(NonZeroUsize::new(n.max(1)).unwrap()),
+        Instruction::Exit(ExitReason::Normal),
+    ];
+    let mut m = Machine::new(prog);
+    m.struct_defs.insert(StructDef { name: id("S"), items: vec![Field { name: id("a"), ty: TypeKind::Int }] });
+    let script = IoScript::default();
+    let mut io = ScriptIo::new(&script);
+    let mut rs = m.create_run_state(&mut io, make_ctx(3, &id("S"), 1));
+    let r = rs.run();
+    println!("child finished: {r:?}");
+    std::process::exit(0);
+}
+
+fn alloc_probe(ctx: &Ctx, rep: &mut Report<'_>) {
+    const PART: &str = "alloc_probe";
+    if !rep.wants(PART) {
+        return;
+    }
+    let mut operands: Vec<u64> = vec![1, 2, 1 << 45, 1 << 50];
+    if let Some(rp) = rep.replay_for(PART) {
+        operands = vec![rp.case.get("operand").and_then(|v| v.as_u64()).unwrap_or(1 << 50)];
+    }
+    let mut part = PartResult {
+        name: PART.into(),
+        rule: "StructNew; Identifier; Const; MStructSet(n); Exit run in a child process for n in {1, 2, 2^45, 2^50}: \
+               the child must end with a machine error or exit, not die (abort/signal/panic). Non-trivial = n larger \
+               than the stack"
+            .into(),
+        exhaustive: false,
+        ..Default::default()
+    };
+    let exe = std::env::current_exe().expect("current exe");
+    for n in operands {
+        part.evaluations += 1;
+        if n > 100 {
+            part.distinct_nontrivial += 1;
+        }
+        let out = std::process::Command::new(&exe)
+            .env("VH_ROBUST_C25_CHILD", n.to_string())
+            .env_remove("RUST_BACKTRACE")
+            .output();
+        let (ok, detail) = match out {
+            Ok(o) => (
+                o.status.code() == Some(0),
+                format!(
+                    "operand={n} status={:?} stdout={:?} stderr={:?}",
+                    o.status,
+                    String::from_utf8_lossy(&o.stdout).chars().take(200).collect::<String>(),
+                    String::from_utf8_lossy(&o.stderr).chars().take(300).collect::<String>()
+                ),
+            ),
+            Err(e) => {
+                println!("INCONCLUSIVE property=C25 cannot spawn child: {e}");
+                std::process::exit(2);
+            }
+        };
+        *part.labels.entry(if ok { "child_ok".into() } else { "child_died".into() }).or_default() += 1;
+        if !ok {
+            let fl = Failure::new("vm abort: MStructSet operand used as allocation size (allocation failure kills the process)", detail);
+            if rep.is_known(PART, &fl) {
+                part.known_excluded += 1;
+            } else if part.violation.is_none() {
+                let case = serde_json::json!({"operand": n});
+                if !ctx.is_replay() {
+                    // finish() writes the replay file for parts with a violation
+                }
+                part.violation = Some((fl, case));
+            }
+        }
+    }
+    rep.add_part(part);
+}
+
+pub fn run(ctx: &Ctx) -> ! {
+    let mut rep = Report::new(ctx, "exploration");
+    let _ = bases();
+    rep.assume(format!("a run that reaches {STEP_BOUND} steps, {YIELD_BOUND} yields or {SIZE_BOUND} value nodes on the stack counts as not panicking"));
+    rep.assume("struct definitions are acyclic (a cyclic one makes Deserialize recurse without consuming input); native stack exhaustion and memory exhaustion are not observed by this check");
+    rep.assume("MStructSet/MStructGet operands between 300 and 2^60 are exercised only by the child-process probe (the up-front allocation would abort the harness process)");
+    rep.explore(
+        "raw_programs",
+        "hand-built machines: 1..9 snippets (stack-coherent fact/struct/mstruct/arith/wrap/scope/query-loop/SP/branch templates \
+         or single instructions over all 52 Instruction variants with arbitrary operands, targets in and out of range, \
+         unresolved targets, huge counts), 0..3 struct/fact/enum/command/action definitions over a small name pool, globals, \
+         labels, optional (possibly unsorted / out-of-range / empty-text) codemap; initial stack of 0..5 arbitrary Values \
+         (nested structs, facts, options, results, ids, bytes); entry by address, label, setup_action, setup_command, \
+         seal/open shape; all five context kinds; scripted I/O (query rows echoing the query keys, fixed rows, row errors, \
+         insert/delete errors, FFI calls that pop/push values and fail). Each case is stepped with the bounds, then re-run \
+         through RunState::run when it terminated. Non-trivial = at least 3 instructions executed",
+        raw_case,
+        ctx.pick(150_000, 5_000_000),
+        check,
+    );
+    rep.explore(
+        "mutated_modules",
+        "8 compiled policies (with and without debug) from this harness's corpus, 0..3 edits (replace/insert/delete/swap \
+         instruction, retarget a jump/branch/call/recall, truncate, drop a struct/fact/enum definition, replace the \
+         codemap), entered at a label of the module with arguments built to match the action/command definitions \
+         (or deliberately another context), same scripted I/O. Non-trivial = at least 3 instructions executed",
+        mutated_case,
+        ctx.pick(100_000, 3_000_000),
+        check,
+    );
+    alloc_probe(ctx, &mut rep);
+    rep.finish()
+}
